@@ -12,7 +12,7 @@ RULE = ("end-to-end runs of the monitor driver (real RunBackendApp, option parse
         "constructed classes must get codes 200-299 resp. 500-999 with a message; non-trivial = the NL header was read; distinct = distinct "
         "(family, invocation mode, outcome class, names mode) signatures")
 
-FAMS = ['valid', 'valid', 'valid', 'infeasible-bounds', 'infeasible-logic', 'unsupported', 'bigm-unbounded', 'nl-mutant', 'nl-mutant', 'bad-options', 'names', 'names', 'outfault-dir', 'outfault-enospc']
+FAMS = ['valid', 'valid', 'valid', 'infeasible-bounds', 'infeasible-logic', 'unsupported', 'bigm-unbounded', 'nl-mutant', 'nl-mutant', 'bad-options', 'names', 'names', 'outfault-dir', 'outfault-enospc', 'option-file']
 
 
 def mutate_nl(rng, text):
@@ -56,7 +56,7 @@ def build_case(rng, fam):
     c = dict(opts=[], ampl=True, col=None, row=None, expect=None, names_mode='absent', acc=None, sub='')
     g = gen_nl.G(rng, dict(nobjs=(0, 2)))
     m = g.model()
-    if fam in ('valid', 'names', 'bad-options', 'outfault-dir', 'outfault-enospc'):
+    if fam in ('valid', 'names', 'bad-options', 'outfault-dir', 'outfault-enospc', 'option-file'):
         pass
     elif fam == 'infeasible-bounds':
         j = rng.randrange(len(m.vars)); v = m.vars[j]
@@ -121,9 +121,38 @@ def build_case(rng, fam):
     # invocation mode
     if rng.random() < 0.25:
         c['ampl'] = False; c['opts'].append('wantsol=%d' % rng.randrange(16))
+    if fam == 'option-file':
+        # tech:optionfile: readable (comments, blank lines, CRLF, no final newline), empty, missing, a directory, junk bytes, an unknown option inside
+        kind = rng.choice(['valid', 'valid', 'crlf', 'no-final-newline', 'empty', 'missing', 'directory', 'junk', 'unknown-option', 'self-reference'])
+        body = ['# options for the run', '', 'cvt:pre:all=%d' % rng.randrange(2), '  # indented comment', 'cvt:mip:eps=1e-3 cvt:bigm=1e5', 'timing=%d' % rng.randrange(2)]
+        rng.shuffle(body)
+        text = '\n'.join(body) + '\n'
+        if kind == 'crlf':
+            text = text.replace('\n', '\r\n')
+        elif kind == 'no-final-newline':
+            text = text.rstrip('\n')
+        elif kind == 'empty':
+            text = ''
+        elif kind == 'junk':
+            text = ''.join(chr(rng.randrange(1, 256)) for _ in range(rng.randrange(1, 400)))
+        elif kind == 'unknown-option':
+            text += 'nosuchoption=3\n'
+        elif kind == 'self-reference':
+            text += 'tech:optionfile=%%BASE%%.opt\n'
+        c['optfile'] = dict(kind=kind, text=text)
+        c['opts'].append(rng.choice(['tech:optionfile', 'optionfile', 'option:file']) + '=%%BASE%%.opt')
+        c['sub'] = kind
+        if kind not in ('valid', 'crlf', 'no-final-newline', 'empty'):
+            c['expect'] = 'any-diagnosed'
     if fam == 'bad-options':
         c['opts'] += rng.sample(['nosuchoption=3', 'cvt:bigm=abc', 'objno=-5', 'wantsol=99', 'cvt:pre:all=2.5x', 'timing=yes', 'version=3', 'sol:chk:mode=-1', "outlev='", '=5', 'objno=1e30'], rng.randrange(1, 3))
         c['expect'] = 'any-diagnosed'
+    if fam not in ('bad-options',) and c['nobjs'] and rng.random() < 0.25:
+        c['opts'].append('objno=%d' % rng.randrange(0, c['nobjs'] + 1))
+        if rng.random() < 0.3:
+            c['opts'].append('multiobj=1')
+    if fam == 'bad-options':
+        pass
     elif rng.random() < 0.4:
         c['opts'] += rng.sample(['cvt:pre:all=0', 'cvt:pre:eqresult=0', 'cvt:pre:eqbinary=0', 'cvt:mip:eps=1e-3', 'cvt:bigm=1e5', 'cvt:names=%d' % rng.randrange(4), 'cvt:quadobj=0', 'cvt:quadcon=0',
                                  'sol:chk:mode=1023', 'sol:chk:fail=1', 'timing=1', 'cvt:writegraph=%%BASE%%.jsonl', 'tech:debug=1', 'cvt:sos2=0', 'cvt:uenc:ratio=0'], rng.randrange(1, 4))
@@ -233,6 +262,18 @@ def main(tier, seed):
                 shutil.rmtree(p)
         extra = {}
         injected = None
+        of = c.get('optfile')
+        if of:
+            pth = base + '.opt'
+            if os.path.isdir(pth):
+                shutil.rmtree(pth)
+            elif os.path.exists(pth):
+                os.unlink(pth)
+            if of['kind'] == 'directory':
+                os.makedirs(pth)
+            elif of['kind'] != 'missing':
+                with open(pth, 'w', encoding='latin-1', newline='') as f:
+                    f.write(of['text'].replace('%%BASE%%', base))
         if fam == 'outfault-dir':
             os.makedirs(base + '.sol', exist_ok=True); c['ampl'] = True
             r = mpmon.run_case(exe, wd, stub, c['nl'], opts=opts, acc=c['acc'], ampl=True, timeout=120, col=c['col'], row=c['row'])
@@ -267,11 +308,12 @@ def main(tier, seed):
             pass
         header_read = any(t.get('ev') in ('init', 'vars') for t in r.get('trace', [])) or (r.get('sol') is not None)
         info = dict(fam=fam, sub=c['sub'], ampl=c['ampl'], names=c['names_mode'], cls=cls, rc=r['rc'], opts=opts, injected=injected)
-        for ext in ('.nl', '.sol', '.trace', '.col', '.row', '.jsonl'):
+        for ext in ('.nl', '.sol', '.trace', '.col', '.row', '.jsonl', '.opt'):
             try:
                 os.unlink(base + ext)
             except OSError:
-                pass
+                if os.path.isdir(base + ext):
+                    shutil.rmtree(base + ext, ignore_errors=True)
         witness = dict(nl=c['nl'][:6000], opts=opts, acc=c['acc'], ampl=c['ampl'], col=c['col'], row=c['row']) if res else None
         return k, res, info, header_read, witness
 
